@@ -13,6 +13,14 @@ fd, BIN = tempfile.mkstemp(prefix="gvc-frozen-")
 os.close(fd)
 shutil.copy(VERIF + "/bin/gvc", BIN)
 os.chmod(BIN, 0o755)
+# ... and of the files of /verif the engine reads (trusted contracts, findings, stretch list, expected names, hints)
+FROZEN = tempfile.mkdtemp(prefix="gvc-frozen-verif-")
+for f in ["trusted", "known_findings.txt", "stretch.txt", "expected_obligations.json", "solver_hints.json", "prop_notes.json", "MANIFEST.json", "properties.jsonl"]:
+    src = os.path.join(VERIF, f)
+    if os.path.isdir(src):
+        shutil.copytree(src, os.path.join(FROZEN, f))
+    elif os.path.exists(src):
+        shutil.copy(src, os.path.join(FROZEN, f))
 for meta in cases:
     d = os.path.dirname(meta)
     name = os.path.basename(d)
@@ -32,7 +40,7 @@ for meta in cases:
             continue
         detected = []
         for p in props:
-            out = subprocess.run([BIN, "check", "-repo", wt, "-verif", VERIF, "-no-evidence", p], capture_output=True, text=True).stdout
+            out = subprocess.run([BIN, "check", "-repo", wt, "-verif", FROZEN, "-no-evidence", p], capture_output=True, text=True).stdout
             if "VIOLATION property=" + p in out:
                 detected.append(p)
         if detected:
@@ -44,4 +52,5 @@ for meta in cases:
         subprocess.run(["git", "-C", "/repo", "worktree", "remove", "--force", wt])
         shutil.rmtree(wt, ignore_errors=True)
 os.remove(BIN)
+shutil.rmtree(FROZEN, ignore_errors=True)
 sys.exit(1 if bad else 0)
